@@ -204,6 +204,17 @@ CHECKS['C07'] = {
     'technique': 'constant-table validation in exact arithmetic + extraction of nodes/weights of the linear functional from closure terms',
 }
 
+CHECKS['C14'] = {
+    'category': 'other',
+    'text': 'Symbolic proof of the algebraic identity behind least squares: fit stores coef = inv(V^T V).(V^T y) (orientation algebra over matmul flags, '
+            'xtx, invert_matrix, vandermonde) with consistent row-count arguments and shapes under the length assert; the Vandermonde columns are '
+            'ascending powers from 0; predict is a Horner fold acc*x + c over the coefficients reversed an odd number of times, once per x. '
+            'Conditioning of the normal equations (numerical optimality) is not decided.',
+    'design_ref': 'DESIGN.md 4.14, 3 (E-IDX orientation algebra, reversal parity)',
+    'note': 'Relies on C05 (matmul = op(A).op(B)), C01 (invert_matrix = solve against I) and C15 (vandermonde pattern).',
+    'technique': 'symbolic matrix-expression algebra over resolved calls + fold/closure shape matching',
+}
+
 NOT_APPLICABLE = {
     'C09': 'accuracy of the Lanczos/asymptotic/Abramowitz-Stegun approximations over a continuum of arguments is a numerical '
            'quantity; no structural clause is a necessary condition without freezing coefficient tables (a brittle proxy); see DESIGN.md 4.9',
